@@ -99,6 +99,9 @@ def run(idx, rep, tier):
     from . import c06
     c06.header_index_sequences(idx, rep, "R6")
     runtime_fresh(idx, rep, "R6")
+    # print-mode: no-default takes the stdout printer away and nothing else: every other printer still gets every entry (C15.R7)
+    from . import c15
+    c15.r7(idx, K.as_rule(rep, "R5"))
 
 
 def _terminal(gsrc, name):
@@ -240,7 +243,8 @@ def r6(idx, rep):
     fl = idx.method("PrintParser", "_ref_from_list")
     rep.analysed(fl)
     bad = None
-    for name, line, want in (("b", ["1", "", "3"], ""), ("a", ["0", "x"], "0"), ("2", ["p", "q", "r"], "r"), ("zz", ["p"], "zz")):
+    # (a header the line is too short to hold prints as its name, like an unknown header — never an exception out of print())
+    for name, line, want in (("b", ["1", "", "3"], ""), ("a", ["0", "x"], "0"), ("2", ["p", "q", "r"], "r"), ("zz", ["p"], "zz"), ("c", ["p"], "c"), ("b", [], "b")):
         it = Interp(idx, types={"self": "PrintParser"}, unknown_calls="residual",
                     handlers={"self.csvpath.header_index": lambda i, c, r, a, k: {"a": 0, "b": 1, "c": 2}.get(a[0])},
                     domains={"self.csvpath.matcher": [Obj("M")]})
